@@ -694,6 +694,41 @@ func c16Shift(r *core.Result) {
 		iset.add(common.SHA512_256i(ti...).FillBytes(make([]byte, 32)), intsKey(ti), "SHA512_256i")
 		tset.add(common.SHA512_256i_TAGGED([]byte("tag"), ti...).FillBytes(make([]byte, 32)), intsKey(ti), "SHA512_256i_TAGGED")
 	}
+	// one element that spells out a whole framed tuple under several candidate framings (count prefix or not, either byte
+	// order): a single input must not be hashed as if it were the tuple
+	framings := func(t [][]byte) [][]byte {
+		var out [][]byte
+		for _, order := range []func(uint64) []byte{le, be} {
+			for _, withCount := range []bool{true, false} {
+				var b []byte
+				if withCount {
+					b = append(b, order(uint64(len(t)))...)
+				}
+				for _, e := range t {
+					b = append(b, e...)
+					b = append(b, '$')
+					b = append(b, order(uint64(len(e)))...)
+				}
+				out = append(out, b)
+			}
+		}
+		return out
+	}
+	for _, x := range elems {
+		for _, y := range elems {
+			for _, fr := range framings([][]byte{x, y}) {
+				hashAll([][]byte{x, y})
+				hashAll([][]byte{fr})
+				r.Count("framed_singles", 1)
+			}
+			for _, z := range elems[:3] {
+				for _, fr := range framings([][]byte{x, y, z}) {
+					hashAll([][]byte{fr})
+					r.Count("framed_singles", 1)
+				}
+			}
+		}
+	}
 	for _, x := range elems {
 		for _, y := range elems {
 			for _, z := range elems {
